@@ -102,13 +102,14 @@ fn cycle_ladder() -> Vec<Mag> {
 fn value_ladder(thorough: bool) -> Vec<Mag> {
     let mut pts: Vec<(usize, i32)> = vec![];
     if thorough {
-        for k in [7usize, 8, 15, 16, 31, 32, 33, 63, 64, 65] {
+        for k in [7usize, 8, 15, 16, 31, 32, 33, 60, 61, 62, 63, 64, 65] {
             for d in [-1, 0, 1] {
                 pts.push((k, d));
             }
         }
     } else {
-        pts = vec![(8, 0), (16, 0), (31, -1), (31, 0), (32, -1), (32, 0), (32, 1), (63, -1), (63, 0), (64, -1), (64, 0), (64, 1)];
+        // 2^61 and 2^62: a count of bytes or hex digits whose bit count no longer fits the machine word
+        pts = vec![(8, 0), (16, 0), (31, -1), (31, 0), (32, -1), (32, 0), (32, 1), (61, -1), (61, 0), (62, -1), (62, 0), (63, -1), (63, 0), (64, -1), (64, 0), (64, 1)];
     }
     let mut v = vec![Mag::Value { label: "0".into(), z: Z::from(0), expr: "0".into(), lit: Some("0".into()) }];
     for (k, d) in pts {
